@@ -749,4 +749,193 @@ theorem mstep_iter (s : MSt) (v : Nat) (rv p : Ref) (d : Dir) (hv : s.views.look
       .kvs ((iterRes s rv p d).2.zip ((iterKeys s rv p d).map (fun k => (rget k (iterSnap s rv p).2).getD 0)))) := by
   simp only [mstep, hv, hp, if_true, iterSt, iterRes, iterKeys, iterSnap]
 
+/-! ## the stored data along a history -/
+
+/-- The requests that do not touch the map's references. -/
+def MOp.keepsMap : MOp → Bool
+  | .set .. => false
+  | .del .. => false
+  | .delp .. => false
+  | .commit .. => false
+  | _ => true
+
+theorem mstep_m_unchanged (s : MSt) (op : MOp) (hk : op.keepsMap = true) : (mstep s op).1.m = s.m := by
+  cases op with
+  | alloc b => rfl
+  | write r b =>
+    simp only [mstep]
+    split
+    · rfl
+    · rfl
+  | withRealm v p r =>
+    simp only [mstep]
+    split
+    · rfl
+    · split
+      · rfl
+      · rfl
+  | withExtendedRealm v p r =>
+    simp only [mstep]
+    split
+    · rfl
+    · split
+      · rfl
+      · rfl
+  | realm v =>
+    simp only [mstep]
+    split
+    · rfl
+    · rfl
+  | set v k x => simp [MOp.keepsMap] at hk
+  | get v k =>
+    simp only [mstep]
+    split
+    · rfl
+    · split
+      · split
+        · rfl
+        · rfl
+      · rfl
+  | has v k =>
+    simp only [mstep]
+    split
+    · rfl
+    · split
+      · rfl
+      · rfl
+  | del v k => simp [MOp.keepsMap] at hk
+  | delp v p => simp [MOp.keepsMap] at hk
+  | iter v p d =>
+    simp only [mstep]
+    split
+    · rfl
+    · split
+      · rfl
+      · rfl
+  | iterk v p d =>
+    simp only [mstep]
+    split
+    · rfl
+    · split
+      · rfl
+      · rfl
+  | batch b v =>
+    simp only [mstep]
+    split
+    · rfl
+    · rfl
+  | bset b k x =>
+    simp only [mstep]
+    split
+    · rfl
+    · split
+      · rfl
+      · rfl
+  | bdel b k =>
+    simp only [mstep]
+    split
+    · rfl
+    · split
+      · rfl
+      · rfl
+  | commit b => simp [MOp.keepsMap] at hk
+  | cancel b =>
+    simp only [mstep]
+    split
+    · rfl
+    · rfl
+
+/-- A request that keeps the map's references keeps the stored data: the map's buffers are not the caller's, and no request
+of the store writes into an existing buffer. -/
+theorem storeView_unchanged (s : MSt) (h : MInv s) (op : MOp) (hk : op.keepsMap = true) :
+    storeView (mstep s op).1 = storeView s := by
+  unfold storeView
+  rw [mstep_m_unchanged s op hk]
+  apply deref_congr
+  intro e he
+  by_cases hw : ∃ b, op = .write e.2 b
+  · obtain ⟨b, rfl⟩ := hw
+    have : e.2 ∉ s.known := h.owned_priv e he
+    simp [mstep, this]
+  · exact mstep_reads s h op e.2 (h.owned_lt e he) (fun b heq => hw ⟨b, heq⟩)
+
+/-- What a request does to the stored data, by value, with every buffer as it reads when the request is made. -/
+def effect (s : MSt) : MOp → AList → AList
+  | .set v k x, m =>
+    match s.views.lookup v with
+    | some rv => if k ∈ s.known ∧ x ∈ s.known then aset (s.mem.read rv ++ s.mem.read k) (s.mem.read x) m else m
+    | none => m
+  | .del v k, m =>
+    match s.views.lookup v with
+    | some rv => if k ∈ s.known then adel (s.mem.read rv ++ s.mem.read k) m else m
+    | none => m
+  | .delp v p, m =>
+    match s.views.lookup v with
+    | some rv => if p ∈ s.known then adelPfx (s.mem.read rv ++ s.mem.read p) m else m
+    | none => m
+  | .commit b, m =>
+    match s.batches.lookup b with
+    | some bt => (dbCommit (s.mem.read bt.realm) (deref s.mem bt.sets) bt.dels { m := m, closed := false }).1.m
+    | none => m
+  | _, m => m
+
+theorem storeView_step (s : MSt) (h : MInv s) (op : MOp) : storeView (mstep s op).1 = effect s op (storeView s) := by
+  cases op with
+  | set v k x =>
+    cases hv : s.views.lookup v with
+    | none => simp [mstep, effect, hv]
+    | some rv =>
+      by_cases hkx : k ∈ s.known ∧ x ∈ s.known
+      · simp only [mstep, effect, hv, hkx, and_self, if_true, storeView, fullKey]
+        exact (mapSet_ok s.mem s.m _ x h.owned_lt).2 (h.known_lt x hkx.2)
+      · simp [mstep, effect, hv, hkx]
+  | del v k =>
+    cases hv : s.views.lookup v with
+    | none => simp [mstep, effect, hv]
+    | some rv =>
+      by_cases hk : k ∈ s.known
+      · simp only [mstep, effect, hv, hk, if_true, storeView, fullKey, deref_rdel]
+      · simp [mstep, effect, hv, hk]
+  | delp v p =>
+    cases hv : s.views.lookup v with
+    | none => simp [mstep, effect, hv]
+    | some rv =>
+      by_cases hk : p ∈ s.known
+      · simp only [mstep, effect, hv, hk, if_true, storeView, fullKey, deref_rdelPfx]
+      · simp [mstep, effect, hv, hk]
+  | commit b =>
+    cases hl : s.batches.lookup b with
+    | none => simp [mstep, effect, hl]
+    | some bt =>
+      have hs : ∀ e ∈ bt.sets, e.2 < s.mem.next :=
+        fun e he => h.known_lt _ (h.batch_known (b, bt) (lookup_mem' hl) e he)
+      obtain ⟨_, hd⟩ := commitSets_ok (s.mem.read bt.realm) bt.sets s.mem s.m h.owned_lt hs
+      simp only [mstep, effect, hl, storeView, dbCommit, Bool.false_eq_true, if_false]
+      rw [deref_foldr_rdel, hd, foldr_deref_sets]
+  | alloc b => exact storeView_unchanged s h _ rfl
+  | write r b => exact storeView_unchanged s h _ rfl
+  | withRealm v p r => exact storeView_unchanged s h _ rfl
+  | withExtendedRealm v p r => exact storeView_unchanged s h _ rfl
+  | realm v => exact storeView_unchanged s h _ rfl
+  | get v k => exact storeView_unchanged s h _ rfl
+  | has v k => exact storeView_unchanged s h _ rfl
+  | iter v p d => exact storeView_unchanged s h _ rfl
+  | iterk v p d => exact storeView_unchanged s h _ rfl
+  | batch b v => exact storeView_unchanged s h _ rfl
+  | bset b k x => exact storeView_unchanged s h _ rfl
+  | bdel b k => exact storeView_unchanged s h _ rfl
+  | cancel b => exact storeView_unchanged s h _ rfl
+
+/-- The effects of a history, one after the other, each with the buffers as they read at that moment. -/
+def effects : MSt → List MOp → AList → AList
+  | _, [], m => m
+  | s, op :: ops, m => effects (mstep s op).1 ops (effect s op m)
+
+theorem storeView_run (s : MSt) (h : MInv s) (ops : List MOp) : storeView (mrun s ops) = effects s ops (storeView s) := by
+  induction ops generalizing s with
+  | nil => rfl
+  | cons op rest ih =>
+    simp only [mrun, effects]
+    rw [ih _ (minv_step s h op), storeView_step s h op]
+
 end Hive.KV.Mem
